@@ -59,6 +59,7 @@ type c13Pod struct {
 	ingress uint64
 	eni     int  // which of the world's ENIs owns the pod's address
 	gone    bool // the sandbox vanished without a CNI DEL (crash): its veth is gone, its rules are left behind
+	supers  bool // the pod object is gone and its address serves a new pod while this sandbox still stands
 }
 
 type c13World struct {
@@ -266,23 +267,33 @@ func c13KernelCase(c *ctxT, hid int, rng *rand.Rand) {
 		steps++
 		p := w.pods[rng.Intn(len(w.pods))]
 		switch {
-		case !p.setup || (!p.torn && rng.Intn(4) == 0):
+		case !p.setup || (!p.torn && !p.supers && rng.Intn(4) == 0):
 			if p.torn {
 				continue
 			}
 			w.policySetup(p)
-		case !p.torn && rng.Intn(4) == 0:
+		case !p.torn && !p.supers && rng.Intn(4) == 0:
 			// the sandbox vanishes without CNI DEL (its veth goes with it, its host rules stay behind) and the
 			// address is given to a new pod on the other ENI
 			w.crashAndReuse(p)
-		case !p.torn && rng.Intn(2) == 0:
+		case !p.torn && !p.supers && rng.Intn(5) == 0:
+			// the pod object is force-deleted, the address goes to a new pod at once, the old sandbox (and its host
+			// veth, route and rules) is still there: the address must now lead to the new pod
+			w.reuseWhileAlive(p)
+		case !p.torn && !p.supers && rng.Intn(2) == 0:
 			w.policyTeardown(p)
+		case !p.torn && p.supers && rng.Intn(2) == 0:
+			w.reapSuperseded(p)
 		}
 		w.judgeAll()
 	}
 	for _, p := range w.pods {
 		if p.setup && !p.torn {
-			w.policyTeardown(p)
+			if p.supers {
+				w.reapSuperseded(p)
+			} else {
+				w.policyTeardown(p)
+			}
 			w.judgeAll()
 		}
 	}
@@ -343,6 +354,48 @@ func (w *c13World) crashAndReuse(p *c13Pod) {
 	w.pods = append(w.pods, q)
 	w.policySetup(q)
 	w.c.R.Count("address_reused_on_other_eni_after_crash", 1)
+}
+
+func (w *c13World) reuseWhileAlive(p *c13Pod) {
+	p.supers = true
+	w.ev("pod object of %s is gone, its address is handed to a new pod while the sandbox stands", p.name)
+	q := &c13Pod{name: p.name + "s", v4: p.v4, v6: p.v6, defRt: p.defRt, multi: p.multi, eni: p.eni}
+	if w.rng.Intn(3) == 0 {
+		q.eni = 1 - p.eni
+	}
+	var err error
+	if q.ns, err = testutils.NewNS(); err != nil {
+		w.c.R.Inconclusive("cannot create a network namespace: " + err.Error())
+		return
+	}
+	q.hostIf, _ = link.VethNameForPod(q.name, "ns", "", "cali")
+	w.pods = append(w.pods, q)
+	w.policySetup(q)
+	w.c.R.Count("address_reused_while_old_sandbox_stands", 1)
+}
+
+// reapSuperseded: the runtime finally removes the old sandbox. The daemon has no record of it any more, so the plugin
+// only does its generic clean-up of the namespace; what serves the address now must not change.
+func (w *c13World) reapSuperseded(p *c13Pod) {
+	before := w.dumpHost()
+	err := w.host.Do(func(ns.NetNS) error { return utils.GenericTearDown(context.Background(), p.ns) })
+	w.ev("old sandbox of %s reaped (generic clean-up) -> %v", p.name, err)
+	p.torn = true
+	after := w.dumpHost()
+	var b, a []string
+	for _, l := range before {
+		if !strings.Contains(l, p.hostIf) {
+			b = append(b, l)
+		}
+	}
+	for _, l := range after {
+		if !strings.Contains(l, p.hostIf) {
+			a = append(a, l)
+		}
+	}
+	if strings.Join(a, "\n") != strings.Join(b, "\n") {
+		w.violate("C13.teardown-touched-others", "host-dump/superseded", fmt.Sprintf("removing the old sandbox of %s changed host state that does not belong to it:\nbefore:\n%s\nafter:\n%s", p.name, diffLines(b, a), diffLines(a, b)))
+	}
 }
 
 func (w *c13World) policyTeardown(p *c13Pod) {
@@ -474,7 +527,7 @@ func c13Dump() []string {
 
 func (w *c13World) judgeAll() {
 	for _, p := range w.pods {
-		if p.setup && !p.torn {
+		if p.setup && !p.torn && !p.supers {
 			w.judgePolicyPod(p)
 		}
 	}
